@@ -12,6 +12,10 @@ import (
 const (
 	mask1 = uint64(0x7F)
 	mask2 = uint64(0x80)
+
+	// maxRun is the largest number of levels a single run can hold:
+	// a data page counts its values in an int32.
+	maxRun = uint64(1<<31 - 1)
 )
 
 // RLE holds metadata that is used while reading
@@ -163,12 +167,18 @@ func (r *RLE) Read(in io.Reader) ([]uint8, int, error) {
 		return out, 0, err
 	}
 
-	buf := make([]byte, length)
-	if _, err := in.Read(buf); err != nil {
+	if length < 0 {
+		return nil, 0, fmt.Errorf("invalid length of level data: %d", length)
+	}
+
+	// length comes from the page and is not trusted: the buffer
+	// grows with the bytes that are really there.
+	var buf bytes.Buffer
+	if _, err := io.CopyN(&buf, in, int64(length)); err != nil {
 		return nil, 0, err
 	}
 
-	rr := bytes.NewReader(buf)
+	rr := bytes.NewReader(buf.Bytes())
 	var header uint64
 	var vals []uint8
 	var err error
@@ -194,13 +204,21 @@ func (r *RLE) Read(in io.Reader) ([]uint8, int, error) {
 	return out, int(length) + 4, nil
 }
 
-func readRLEBitPacked(r io.Reader, header uint64, width uint8) ([]uint8, error) {
+func readRLEBitPacked(r *bytes.Reader, header uint64, width uint8) ([]uint8, error) {
+	if header>>1 > maxRun/8 {
+		return nil, fmt.Errorf("bit-packed run of %d groups is too long", header>>1)
+	}
+
 	count := (int(header) >> 1) * 8
 	if width == 0 {
 		return make([]uint8, count), nil
 	}
 
 	byteCount := (int(width) * count) / 8
+	if byteCount > r.Len() {
+		return nil, io.ErrUnexpectedEOF
+	}
+
 	rawBytes := make([]byte, byteCount)
 	if _, err := r.Read(rawBytes); err != nil {
 		return nil, err
@@ -217,6 +235,10 @@ func readRLEBitPacked(r io.Reader, header uint64, width uint8) ([]uint8, error) 
 
 func readRLE(r io.Reader, header uint64, bitWidth uint64) ([]uint8, error) {
 	count := header >> 1
+	if count > maxRun {
+		return nil, fmt.Errorf("RLE run of %d values is too long", count)
+	}
+
 	value, err := readIntLittleEndianPaddedOnBitWidth(r, int(bitWidth))
 	if err != nil {
 		return nil, err
